@@ -80,6 +80,7 @@ func restTok(vm *otto.Otto) string {
 
 func followTok(vm *otto.Otto) string {
 	otto.VerifStepHook = nil
+	vm.SetStackDepthLimit(0) // the follow-up script has its own nesting
 	v, err := vm.Run(`var __f = 0; lbl: for (var __i = 0; __i < 3; __i++) { try { if (__i == 1) continue lbl; __f += (function(x){ return x + 1 })(__i) } finally { __f += 10 } } __f`)
 	if err != nil {
 		return "follow:err:" + strings.ReplaceAll(err.Error(), " ", "_")
@@ -135,16 +136,29 @@ func implInject(k int, inTry bool, vars, prog string) string {
 	return esc + ";" + restTok(vm) + ";" + tr + ";" + followTok(vm)
 }
 
-func implDepth(L, d int) string {
+// leaves: what the innermost of the d script calls does; extra = additional nested scopes it enters
+var depthLeaves = []struct {
+	js    string
+	extra int
+}{
+	{`0`, 0},
+	{`Math.abs(0)`, 1},                               // a native function: one more scope
+	{`[7].map(function(x){ return 0 })[0]`, 2},       // native calling back into script: two more
+	{`(function(){ return 0 }).call(null)`, 2},       // Function.prototype.call (native) + the target
+	{`parseInt.apply(null, ["0"])`, 2},               // apply (native) + parseInt (native)
+	{`String.prototype.charAt.bind("0", 0)() - 0`, 1}, // bound: passthrough site, then the native target
+}
+
+func implDepth(L, d, leaf int) string {
 	vm := otto.New()
 	vm.SetStackDepthLimit(L)
-	src := fmt.Sprintf(`function f(n){ return n > 0 ? f(n-1) + 1 : 0 }; f(%d)`, d-1)
+	src := fmt.Sprintf(`function f(n){ return n > 0 ? f(n-1) + 1 : (%s) }; f(%d)`, depthLeaves[leaf].js, d-1)
 	v, err := vm.Run(src)
 	if err == nil {
 		if n, _ := v.ToInteger(); int(n) != d-1 {
 			return "wrong-value:" + v.String()
 		}
-		return "ok;" + restTok(vm)
+		return "ok;" + restTok(vm) + ";" + followTok(vm)
 	}
 	if !strings.HasPrefix(err.Error(), "RangeError") {
 		return "err:" + strings.ReplaceAll(err.Error(), " ", "_")
@@ -153,12 +167,12 @@ func implDepth(L, d int) string {
 	vm2 := otto.New()
 	vm2.SetStackDepthLimit(L)
 	// the try block itself does not add a scope; the catch must see a RangeError instance
-	v2, err2 := vm2.Run(fmt.Sprintf(`function f(n){ return n > 0 ? f(n-1) + 1 : 0 }; var r; try { f(%d); r = "no" } catch (e) { r = (e instanceof RangeError) ? "yes" : "other" } r`, d-1))
+	v2, err2 := vm2.Run(fmt.Sprintf(`function f(n){ return n > 0 ? f(n-1) + 1 : (%s) }; var r; try { f(%d); r = "no" } catch (e) { r = (e instanceof RangeError) ? "yes" : "other" } r`, depthLeaves[leaf].js, d-1))
 	c := "notcatchable"
 	if err2 == nil && v2.String() == "yes" {
 		c = "catchable"
 	}
-	return "RangeError;" + c + ";" + restTok(vm)
+	return "RangeError;" + c + ";" + restTok(vm) + ";" + followTok(vm)
 }
 
 var spinShapes = []string{
@@ -237,7 +251,11 @@ func implC18(line string) string {
 	case "depth":
 		fmt.Sscan(f[1], &a)
 		fmt.Sscan(f[2], &b)
-		return implDepth(a, b)
+		leaf := 0
+		if len(f) > 3 {
+			fmt.Sscan(f[3], &leaf)
+		}
+		return implDepth(a, b, leaf)
 	case "interrupt":
 		fmt.Sscan(f[1], &a)
 		return implInterrupt(a)
@@ -260,7 +278,9 @@ func genC18(c *h.Ctx) {
 			lo = 1
 		}
 		for d := lo; d <= L+3; d++ {
-			c.Add(fmt.Sprintf("depth %d %d", L, d), "depth")
+			for leaf := range depthLeaves {
+				c.Add(fmt.Sprintf("depth %d %d %d", L, d, leaf), fmt.Sprintf("depth:leaf%d", leaf))
+			}
 		}
 	}
 	n := c.N(150, 6000)
